@@ -79,8 +79,12 @@ CLAIMED = {
    text="For the 45 serialised types reachable from IrObjects (277 value positions) every property the serializer can emit is declared in the schema with a compatible type, every required schema property is always emitted, skippable properties are optional, Option values are nullable unless the constructor analysis shows they are always Some or never emitted at that position, unit-enum strings and discriminator mappings cover exactly the variants (both directions); enum-to-enum conversions of the IR printer are injective and keep same-named variants. This decides schema validity of the IR for every input program, which validating one emitted file cannot.",
    note="serde_json and RFC 8927 semantics are trusted; that the IR describes the 2,050 objects faithfully needs the emitted file (the committed one is an empty placeholder; producing it means running the generator) and is not decided",
    ref="§3 C10"),
+ "C08": dict(level="other", tech="rules over the generator's resolved program (MIR call facts + typed HIR): hash-iteration sites discharged by order-insensitive-use predicates, directory-walk neutralisation, clock/random/thread source scan, who-may-call on file primitives, missing-target tolerance of the write helpers, stale-file sweep coverage of per-object write sites",
+   text="On wow_message_parser: each of the 4 functions that iterate a hash-ordered collection is discharged by a checked order-insensitive use (sorted after collection, B-tree sink, one write per key) or lies in the item/spell data printer; both directory walks feed a B-tree map or a sort; none of 37,994 resolved call sites is a clock/random/pid source and threads are spawned only in the data printer; file creation/truncation/removal happens only inside file_utils and the write-if-different helpers do not unwrap the read of a missing target; every write site with a per-object path must be covered by the stale-file sweep. These are necessary conditions of 'same output on every run' and of 'converges from deleted or stale files'.",
+   note="byte-for-byte reproduction and convergence need a run of the generator (it aborts in its doc printer in this snapshot) and are not decided; one genuine defect (abort on a deleted artefact) was repaired by a fix: commit, one (doc pages never pruned) is a known finding",
+   ref="§3 C08"),
 }
-NA_REASONS = {}
+NA_REASONS = {"C07": "quantifies over all wowm programs fed to a translator whose output is assembled from string templates: no static argument in reach relates arbitrary template output to codec behaviour, and a check of template text would fire on behaviour-preserving edits; the corpus-instantiated part of the statement is decided under C01/C02/C09 (see DESIGN.md section 5)"}
 DEFAULT_NA = "check under construction in this round (see DESIGN.md); will be claimed once its rule module is committed"
 
 def main():
